@@ -3,13 +3,13 @@ CONSTANTS
   Contents = {"A", "B"}
   MaxOps = 3
   Kinds = {"write"}
-  Fates = {"drop"}
+  Fates = {"deliver", "drop"}
   Rejects = {}
-  CbOps = "one"
+  CbOps = "none"
   Recheck = TRUE
-  Post = "rearm"
+  Post = "forget"
   Record = "always"
-  Breaks = FALSE
-  Blind = FALSE
+  Breaks = TRUE
+  Blind = TRUE
   Export = TRUE
 INVARIANTS EmitHazard
